@@ -107,7 +107,7 @@ FieldName(c, sname, i) == IF Has(c.prog.structs, sname) /\ i <= Len(c.prog.struc
                              THEN c.prog.structs[sname][i].n ELSE "f_missing"
 CtorFields(c, e) == ForSeq(Len(e.es), LAMBDA i : <<[n |-> FieldName(c, e.name, i), e |-> e.es[i]]>>)
 PatFields(c, q) == ForSeq(Len(q.ps), LAMBDA i : <<[n |-> FieldName(c, q.name, i), p |-> q.ps[i]]>>)
-NVariants(c, name) == IF Has(c.prog.enums, name) THEN Len(c.prog.enums[name]) ELSE 1
+NVariants(c, name) == IF Has(c.prog.enums, name) /\ Len(c.prog.enums[name]) >= 1 THEN Len(c.prog.enums[name]) ELSE 1
 
 CallAt(e, p) ==
        ForSeq(Len(e.args) - 1, LAMBDA i :
@@ -116,7 +116,7 @@ CallAt(e, p) ==
                                  Rep("extra_arg", p, 0, [e EXCEPT !.args = e.args \o <<e.args[1]>>]) >>)
     \o When(Len(e.args) = 0, << Rep("extra_arg", p, 0, [e EXCEPT !.args = <<UnitE>>]) >>)
     \o << Rep("undef_fn", p, "zz_nofn", [e EXCEPT !.f = "zz_nofn"]) >>
-    \o (IF Has(e, "targs")
+    \o (IF Has(e, "targs") /\ Len(e.targs) >= 1
           THEN << Rep("targ_drop", p, 0, [e EXCEPT !.targs = RemoveAt(e.targs, Len(e.targs))]),
                   Rep("targ_extra", p, 0, [e EXCEPT !.targs = e.targs \o <<Ty("u64")>>]),
                   Rep("targ_undef", p, 0, [e EXCEPT !.targs = [e.targs EXCEPT ![1] = [t |-> "struct", name |-> "ZZNoType"]]]) >>
@@ -305,7 +305,7 @@ FnMuts(P, f) ==
                  [fn EXCEPT !.body.ss = <<[k |-> "expr", e |-> selfcall]>> \o fn.body.ss]),
              Rep("make_recursive_tail", p, f,
                  [fn EXCEPT !.body.tail = selfcall]) >>
-       \o When(Has(fn, "tparams"),
+       \o When(Has(fn, "tparams") /\ Len(fn.tparams) >= 1,
                << Rep("tparam_drop", p, 0, [fn EXCEPT !.tparams = RemoveAt(fn.tparams, Len(fn.tparams))]),
                   Rep("tparam_extra", p, "Z", [fn EXCEPT !.tparams = fn.tparams \o <<"Z">>]),
                   Rep("tparam_dup", p, 0, [fn EXCEPT !.tparams = fn.tparams \o <<fn.tparams[1]>>]) >>)
@@ -322,7 +322,8 @@ StructMuts(P, s) ==
                Rep("field_type", p, i, [fs EXCEPT ![i].ty = IF fs[i].ty = Ty("bool") THEN Ty("u64") ELSE Ty("bool")]),
                Rep("field_type_undef", p, i, [fs EXCEPT ![i].ty = [t |-> "struct", name |-> "ZZNoType"]]),
                Rep("drop_field", p, i, RemoveAt(fs, i)) >>)
-       \o << Rep("dup_field", p, 1, fs \o <<fs[1]>>), Dup(P, "structs", s) >>
+       \o When(Len(fs) >= 1, <<Rep("dup_field", p, 1, fs \o <<fs[1]>>)>>)
+       \o <<Dup(P, "structs", s)>>
 
 EnumMuts(P, en) ==
     LET vs == P.prog.enums[en]
@@ -333,7 +334,8 @@ EnumMuts(P, en) ==
                Rep("variant_type_recursive_tuple", p, i, [vs EXCEPT ![i].ty = [t |-> "tuple", es |-> <<self, Ty("u64")>>]]),
                Rep("variant_type", p, i, [vs EXCEPT ![i].ty = IF vs[i].ty = Ty("unit") THEN Ty("u64") ELSE Ty("unit")]),
                Rep("drop_variant", p, i, RemoveAt(vs, i)) >>)
-       \o << Rep("dup_variant", p, 1, vs \o <<vs[1]>>), Dup(P, "enums", en) >>
+       \o When(Len(vs) >= 1, <<Rep("dup_variant", p, 1, vs \o <<vs[1]>>)>>)
+       \o <<Dup(P, "enums", en)>>
 
 KindMuts(P) == ForSeq(3, LAMBDA i : LET ks == <<"contract", "predicate", "library">> IN
                     <<Mut("program_kind", <<"prog", "kind">>, ks[i], <<"prog", "kind">>, ks[i])>>)
